@@ -397,7 +397,9 @@ def jones_to_mueller(jones, broadcast=True):
                   [0, 1j, -1j, 0]], dtype=config.precision_complex)
     U /= np.sqrt(2)
 
-    if broadcast:
+    if broadcast or np.ndim(jones) > 2:
+        # np.kron forms the Kronecker product of the whole N-D arrays, which is only
+        # the matrix Kronecker product for a single 2x2 input
         jprod = broadcast_kron(np.conj(jones), jones)
     else:
         jprod = np.kron(np.conj(jones), jones)
